@@ -256,3 +256,53 @@ Definition gate_ok (s : st) (e : ev) : bool :=
       end
   | _ => true
   end.
+
+(* ---- vocabulary of the harness (go/cmd/schedharness): observed histories are replayed through the model ---- *)
+
+Inductive hev :=
+| HE (e : ev)
+| HCall (t : tid) (k : kind) (w : Z)     (* the whole send phase of one call: EAlloc; ERegister; EWrite true *)
+| HFrame (m : msg).                      (* one frame through the dispatcher: ENet; EPop; and if a handler was found ELock; EDeliver; EResume *)
+
+Definition frame_cycle (leaky : bool) (s : st) (m : msg) : option st :=
+  match run leaky [ENet m; EPop] s with
+  | Some s1 =>
+      match d s1 with
+      | DHave _ _ _ =>
+          match run leaky [ELock; EDeliver] s1 with
+          | Some s2 => match step leaky s2 EResume with Some s3 => Some s3 | None => Some s2 end
+          | None => None
+          end
+      | _ => Some s1
+      end
+  | None => None
+  end.
+
+Fixpoint hrun (leaky : bool) (l : list hev) (s : st) : option st :=
+  match l with
+  | [] => Some s
+  | HE e :: r => match step leaky s e with Some s' => hrun leaky r s' | None => None end
+  | HCall t k w :: r => match run leaky [EAlloc t k w; ERegister t; EWrite t true] s with Some s' => hrun leaky r s' | None => None end
+  | HFrame m :: r => match frame_cycle leaky s m with Some s' => hrun leaky r s' | None => None end
+  end.
+
+Fixpoint zlist_eqb (a b : list Z) : bool :=
+  match a, b with
+  | [], [] => true
+  | x :: a', y :: b' => (x =? y) && zlist_eqb a' b'
+  | _, _ => false
+  end.
+
+(* observed: (tid, (result code, request id, uid)); uid = -2: not observable on the implementation *)
+Definition outcome_agrees (s : st) (o : nat * (Z * Z * Z)) : bool :=
+  let '(t, (c, i, u)) := o in
+  let '(c', i', u') := outcome s t in
+  (c =? c') && (i =? i') && ((u =? -2) || (u =? u')).
+
+Definition history_agrees (leaky : bool) (start : Z) (l : list hev) (outs : list (nat * (Z * Z * Z)))
+           (probe hs : list Z) (rl : bool) (dcode : Z) : bool :=
+  match hrun leaky l (init start) with
+  | Some s => forallb (outcome_agrees s) outs && zlist_eqb (registered s probe) hs && Bool.eqb (rcv_locked s) rl
+              && ((dcode =? -1) || (dcode =? disp_code s)) && negb (overflow s)
+  | None => false
+  end.
